@@ -125,7 +125,8 @@ RejectedStep(sigPrefix) ==      \* validate "err" outcome: state unchanged; cont
     /\ UNCHANGED <<pos, posKnown>> /\ KeepDecoder /\ NextLine
 DecodeStart ==
     /\ phase = 0 /\ E.op = "decode" /\ ~dead
-    /\ src' = (IF Has("pre") THEN src ELSE src \o E.bytes)       \* "pre": the bytes were appended earlier
+    /\ src' = (IF Has("pre") \/ RetClass = "skip" THEN src ELSE src \o E.bytes)       \* "pre": the bytes were appended earlier;
+                                                                                       \* a skipped call delivers nothing
     /\ IF RetClass = "skip"        \* outside the property's domain (declared size would not fit in memory): not executed
        THEN UNCHANGED <<pos, posKnown>> /\ KeepDecoder /\ NextLine
        ELSE IF RetClass \notin {"ok", "err"}
